@@ -159,7 +159,7 @@ CHECKS.update({
         "rule": XFER_RULE,
         "budget_s": {"quick": 80, "thorough": 1500},
         "batches": [
-            {"family": "xfer", "mode": "any", "cfgs": {"quick": ["A", "B", "C", "D"], "thorough": ALL_CFGS},
+            {"family": "xfer", "mode": "any", "cfgs": {"quick": ["A", "B", "C", "D", "H"], "thorough": ALL_CFGS},
              "runs": {"quick": 36000, "thorough": 600000}},
             {"family": "xfer", "mode": "valid", "cfgs": {"quick": ["A", "B"], "thorough": ALL_CFGS},
              "runs": {"quick": 15000, "thorough": 240000}},
@@ -220,7 +220,7 @@ CHECKS.update({
                  "on instrumented allocators; inputs are valid, truncated or corrupted; non-trivial: always"),
         "budget_s": {"quick": 80, "thorough": 1500},
         "batches": [
-            {"family": "xfer", "mode": "filter", "cfgs": {"quick": ["A", "B", "D"], "thorough": ALL_CFGS},
+            {"family": "xfer", "mode": "filter", "cfgs": {"quick": ["A", "B", "D", "H"], "thorough": ALL_CFGS},
              "runs": {"quick": 72000, "thorough": 1200000}},
         ],
         "probes": ["probe.projection_checked", "probe.filter_dropped_something", "probe.memory_compared", "probe.filter_true_identity"],
